@@ -8,6 +8,7 @@ mkdir -p harness/bin evidence/replays
    || ( go build -tags verif -o bin/corr ./cmd/corr && go build -tags verif -o bin/extract ./cmd/extract ) )
 ./harness/bin/extract lean/OtpVerif/Gen || true
 ( cd harness && go build -o bin/ssafacts ./cmd/ssafacts && ./bin/ssafacts ../lean/OtpVerif/Gen/Sites.lean || true )
+( cd harness && go build -o bin/restcorr ./cmd/restcorr && go build -o bin/wasmcorr ./cmd/wasmcorr || true )
 ( cd harness && go build -race -tags verif -o bin/stress ./cmd/stress || go build -tags verif -o bin/stress ./cmd/stress || true )
 cd lean
 lake build OtpVerif driver 2>&1 | tail -5
